@@ -21,11 +21,14 @@ Proof.
   - destruct (Nat.eqb (tb_id x) t); [reflexivity|exact IH].
 Qed.
 
-(** ** No statement creates or drops a table: the list of table keys is invariant *)
-Definition ids (d : db) : list nat := map tb_id (d_tabs d).
+(** ** No statement creates or drops a table or a trigger: the list of table keys and the trigger list are invariant *)
+Definition ids (d : db) : list nat * list trig := (map tb_id (d_tabs d), d_trigs d).
 
 Lemma ids_upd : forall d t f, (forall x, tb_id (f x) = tb_id x) -> ids (upd_table d t f) = ids d.
-Proof. intros. unfold ids. apply upd_table_ids. assumption. Qed.
+Proof. intros. unfold ids. rewrite upd_table_ids by assumption. reflexivity. Qed.
+
+Lemma ids_trigs : forall d d', ids d' = ids d -> d_trigs d' = d_trigs d.
+Proof. intros d d' H. unfold ids in H. congruence. Qed.
 
 Lemma ids_apply_row_updates : forall ups d ct, ids (apply_row_updates d ct ups) = ids d.
 Proof.
@@ -177,7 +180,6 @@ Section Ids.
     intros b ctx d t w d' log o H. unfold do_delete in H.
     destruct (get_table d t) as [tb|]; [|inversion H; reflexivity].
     destruct (is_none w && can_use_truncate d t); [inversion H; subst; unfold clear_table; apply ids_upd; reflexivity|].
-    destruct (select_rows ctx w (indexed 0 (tb_rows tb))) as [cands|]; [|inversion H; reflexivity].
     unfold fireS, fireRs in H.
     destruct (if is_none ctx then fire_stmt db run_body b (d_trigs d) t Before EvDelete d else (d, [], None)) as [[d1 l1] r1] eqn:E1.
     apply ids_opt_stmt in E1. destruct r1; [inversion H; subst; exact E1|].
@@ -185,7 +187,7 @@ Section Ids.
       destruct (fire_rows db run_body b (d_trigs d) t Before EvDelete im 0 d1) as [[d2 l2] r2] eqn:E2 end.
     apply ids_fire_rows in E2. destruct r2 as [[k c]|]; [inversion H; subst; congruence|].
     destruct (match s_pk (tb_schema tb) with
-              | Some c0 => cascade_deletes t c0 cands 0 d2 0
+              | Some c0 => cascade_deletes t c0 (collect_rows ctx w (indexed 0 (tb_rows tb))) 0 d2 0
               | None => (d2, None, 0) end) as [[d3 r3] m3] eqn:E3.
     assert (H3 : ids d3 = ids d).
     { destruct (s_pk (tb_schema tb)); [|inversion E3; subst; congruence]. apply ids_cascade_deletes in E3. congruence. }
@@ -235,7 +237,7 @@ Lemma ids_body_runner : forall f tr o n d0 d1 r, body_runner f tr o n d0 = (d1, 
 Proof. intros f tr o n d0 d1 r H. unfold body_runner in H. eapply ids_run_stmts; [|exact H]. intros; eapply ids_exec; eauto. Qed.
 
 Lemma wf_ids : forall d d', ids d' = ids d -> wf d -> wf d'.
-Proof. intros d d' H Hwf. unfold wf in *. unfold ids in H. rewrite H. exact Hwf. Qed.
+Proof. intros d d' H Hwf. unfold wf in *. unfold ids in H. inversion H as [[H1 H2]]. rewrite H1. exact Hwf. Qed.
 
 (** ** The storage loops of UPDATE and DELETE on the statement's table *)
 Definition apply_all (ups : list (nat * row * row)) (rows : list row) : list row :=
@@ -347,12 +349,6 @@ Proof.
 Qed.
 
 (** *** what the selection / assignment phase delivers: positions in increasing order, with the rows found there *)
-Definition selected (ctx : tctx) (w : option cond) (ir : nat * row) : bool :=
-  match (match w with None => Some true | Some c => where_true (mkEnv (Some (snd ir)) ctx) c end) with
-  | Some true => true
-  | _ => false
-  end.
-
 Lemma select_rows_filter : forall ctx w rows sel,
   select_rows ctx w rows = Some sel -> sel = filter (selected ctx w) rows.
 Proof.
@@ -537,107 +533,133 @@ Qed.
 Section Frame.
   Variable run_body : trig -> option row -> option row -> db -> db * option (nat * bool).
   Variable t : nat.
-  Hypothesis Hframe : forall tr o n d0 d1 r, run_body tr o n d0 = (d1, r) -> get_table d1 t = get_table d0 t.
+  Variable d0 : db.     (* the database the statement starts on: it fixes the trigger set and the table keys *)
+  Hypothesis Hids : forall tr o n d1 d2 r, run_body tr o n d1 = (d2, r) -> ids d2 = ids d1.
+  (** the frame condition: the triggers of [d0], run on any database with [d0]'s tables and triggers, leave [t] alone *)
+  Hypothesis Hframe : forall tr o n d1 d2 r,
+    In tr (d_trigs d0) -> ids d1 = ids d0 -> run_body tr o n d1 = (d2, r) -> get_table d2 t = get_table d1 t.
 
   Lemma execute_trigger_frame : forall tr o n d d' log r,
+    In tr (d_trigs d0) -> ids d = ids d0 ->
     execute_trigger db run_body tr o n d = (d', log, r) -> get_table d' t = get_table d t.
   Proof.
-    intros tr o n d d' log r H. unfold execute_trigger in H.
-    assert (Hrun : forall x, (let '(d0, r0) := run_body tr o n d in
-                    (d0, [mkFiring tr o n r0], match r0 with None => None | Some (j, _) => Some (CzBody (t_id tr) j) end)) = x
+    intros tr o n d d' log r Hin Hi H. unfold execute_trigger in H.
+    assert (Hrun : forall x, (let '(d1, r0) := run_body tr o n d in
+                    (d1, [mkFiring tr o n r0], match r0 with None => None | Some (j, _) => Some (CzBody (t_id tr) j) end)) = x
                    -> get_table (fst (fst x)) t = get_table d t).
-    { intros x Hx. destruct (run_body tr o n d) as [d0 r0] eqn:E. subst x. cbn. eapply Hframe; eauto. }
+    { intros x Hx. destruct (run_body tr o n d) as [d1 r0] eqn:E. subst x. cbn. eapply Hframe; eauto. }
     destruct (t_when tr) as [c|]; [|apply Hrun in H; exact H].
     destruct (eval_when c o n) as [[|]|]; [apply Hrun in H; exact H| |]; inversion H; reflexivity.
   Qed.
 
   Lemma fire_list_frame : forall trs o n d d' log r,
+    (forall x, In x trs -> In x (d_trigs d0)) -> ids d = ids d0 ->
     fire_list db run_body trs o n d = (d', log, r) -> get_table d' t = get_table d t.
   Proof.
-    induction trs as [|tr rest IH]; intros o n d d' log r H; cbn [fire_list] in H.
+    induction trs as [|tr rest IH]; intros o n d d' log r Hsub Hi H; cbn [fire_list] in H.
     - inversion H; reflexivity.
     - destruct (execute_trigger db run_body tr o n d) as [[d1 l1] r1] eqn:E1.
-      apply execute_trigger_frame in E1.
+      assert (Hi1 : ids d1 = ids d0).
+      { rewrite <- Hi. apply (ids_fire_list run_body Hids [tr] o n d d1 l1 r1). cbn [fire_list]. rewrite E1.
+        destruct r1; [reflexivity|rewrite app_nil_r; reflexivity]. }
+      apply execute_trigger_frame in E1; [|apply Hsub; left; reflexivity|exact Hi].
       destruct r1; [inversion H; subst; exact E1|].
       destruct (fire_list db run_body rest o n d1) as [[d2 l2] r2] eqn:E2.
-      inversion H; subst. apply IH in E2. congruence.
+      inversion H; subst. apply IH in E2; [congruence| |exact Hi1]. intros x Hx. apply Hsub. right; exact Hx.
   Qed.
 
-  Lemma fire_stmt_frame : forall b trigs tt tm ev d d' log r,
-    fire_stmt db run_body b trigs tt tm ev d = (d', log, r) -> get_table d' t = get_table d t.
-  Proof. intros. unfold fire_stmt in H. destruct b; [eapply fire_list_frame; eauto|inversion H; reflexivity]. Qed.
+  Lemma stmt_triggers_sub : forall trigs tt tm ev x, In x (stmt_triggers trigs tt tm ev) -> In x trigs.
+  Proof. intros trigs tt tm ev x H. unfold stmt_triggers, find_triggers, triggers_for_table in H. repeat (apply filter_In in H; destruct H as [H _]). exact H. Qed.
 
-  Lemma fire_row_frame : forall b trigs tt tm ev o n d d' log r,
-    fire_row db run_body b trigs tt tm ev o n d = (d', log, r) -> get_table d' t = get_table d t.
-  Proof. intros. unfold fire_row in H. destruct b; [eapply fire_list_frame; eauto|inversion H; reflexivity]. Qed.
+  Lemma row_triggers_sub : forall trigs tt tm ev o n x, In x (row_triggers trigs tt tm ev o n) -> In x trigs.
+  Proof. intros trigs tt tm ev o n x H. unfold row_triggers, find_triggers, triggers_for_table in H. repeat (apply filter_In in H; destruct H as [H _]). exact H. Qed.
 
-  Lemma fire_rows_frame : forall b trigs tt tm ev imgs k d d' log r,
-    fire_rows db run_body b trigs tt tm ev imgs k d = (d', log, r) -> get_table d' t = get_table d t.
+  Lemma fire_stmt_frame : forall b tt tm ev d d' log r, ids d = ids d0 ->
+    fire_stmt db run_body b (d_trigs d0) tt tm ev d = (d', log, r) -> get_table d' t = get_table d t.
   Proof.
-    induction imgs as [|[o n] rest IH]; intros k d d' log r H; cbn [fire_rows] in H.
-    - inversion H; reflexivity.
-    - destruct (fire_row db run_body b trigs tt tm ev o n d) as [[d1 l1] r1] eqn:E1. apply fire_row_frame in E1.
-      destruct r1; [inversion H; subst; exact E1|].
-      destruct (fire_rows db run_body b trigs tt tm ev rest (S k) d1) as [[d2 l2] r2] eqn:E2.
-      inversion H; subst. apply IH in E2. congruence.
+    intros b tt tm ev d d' log r Hi H. unfold fire_stmt in H. destruct b; [|inversion H; reflexivity].
+    eapply fire_list_frame; [|exact Hi|exact H]. apply stmt_triggers_sub.
   Qed.
 
-  Lemma opt_stmt_frame : forall b (ctx : tctx) trigs tt tm ev d d' log r,
-    (if is_none ctx then fire_stmt db run_body b trigs tt tm ev d else (d, [], None)) = (d', log, r) ->
+  Lemma fire_row_frame : forall b tt tm ev o n d d' log r, ids d = ids d0 ->
+    fire_row db run_body b (d_trigs d0) tt tm ev o n d = (d', log, r) -> get_table d' t = get_table d t.
+  Proof.
+    intros b tt tm ev o n d d' log r Hi H. unfold fire_row in H. destruct b; [|inversion H; reflexivity].
+    eapply fire_list_frame; [|exact Hi|exact H]. apply row_triggers_sub.
+  Qed.
+
+  Lemma fire_rows_frame : forall b tt tm ev imgs k d d' log r, ids d = ids d0 ->
+    fire_rows db run_body b (d_trigs d0) tt tm ev imgs k d = (d', log, r) -> get_table d' t = get_table d t.
+  Proof.
+    induction imgs as [|[o n] rest IH]; intros k d d' log r Hi H; cbn [fire_rows] in H.
+    - inversion H; reflexivity.
+    - destruct (fire_row db run_body b (d_trigs d0) tt tm ev o n d) as [[d1 l1] r1] eqn:E1.
+      pose proof (ids_fire_row run_body Hids _ _ _ _ _ _ _ _ _ _ _ E1) as Hi1. apply fire_row_frame in E1; [|exact Hi].
+      destruct r1; [inversion H; subst; exact E1|].
+      destruct (fire_rows db run_body b (d_trigs d0) tt tm ev rest (S k) d1) as [[d2 l2] r2] eqn:E2.
+      inversion H; subst. apply IH in E2; [congruence|congruence].
+  Qed.
+
+  Lemma opt_stmt_frame : forall b (ctx : tctx) tt tm ev d d' log r, ids d = ids d0 ->
+    (if is_none ctx then fire_stmt db run_body b (d_trigs d0) tt tm ev d else (d, [], None)) = (d', log, r) ->
     get_table d' t = get_table d t.
-  Proof. intros. destruct (is_none ctx); [eapply fire_stmt_frame; eauto|inversion H; reflexivity]. Qed.
+  Proof. intros. destruct (is_none ctx); [eapply fire_stmt_frame; eauto|inversion H0; reflexivity]. Qed.
 
   (** *** INSERT, any path: every validated row is appended, in order *)
-  Lemma insert_slow_rows : forall b trigs rows k d d' log cnt tb,
-    insert_slow run_body b trigs t rows k d = (d', log, None, cnt) -> get_table d t = Some tb ->
+  Lemma insert_slow_rows : forall b rows k d d' log cnt tb, ids d = ids d0 ->
+    insert_slow run_body b (d_trigs d0) t rows k d = (d', log, None, cnt) -> get_table d t = Some tb ->
     exists tb', get_table d' t = Some tb' /\ tb_rows tb' = tb_rows tb ++ rows /\ tb_schema tb' = tb_schema tb.
   Proof.
-    induction rows as [|r0 rest IH]; intros k d d' log cnt tb H Ht; cbn [insert_slow] in H.
+    induction rows as [|r0 rest IH]; intros k d d' log cnt tb Hi H Ht; cbn [insert_slow] in H.
     - inversion H; subst. exists tb. rewrite app_nil_r. auto.
     - unfold fireR in H.
-      destruct (fire_row db run_body b trigs t Before EvInsert None (Some r0) d) as [[d1 l1] r1] eqn:E1.
-      apply fire_row_frame in E1. destruct r1; [discriminate|].
+      destruct (fire_row db run_body b (d_trigs d0) t Before EvInsert None (Some r0) d) as [[d1 l1] r1] eqn:E1.
+      pose proof (ids_fire_row run_body Hids _ _ _ _ _ _ _ _ _ _ _ E1) as Hi1.
+      apply fire_row_frame in E1; [|exact Hi]. destruct r1; [discriminate|].
       rewrite E1, Ht in H.
-      destruct (fire_row db run_body b trigs t After EvInsert None (Some r0) (push_row d1 t r0)) as [[d3 l3] r3] eqn:E3.
-      apply fire_row_frame in E3. destruct r3; [discriminate|].
-      destruct (insert_slow run_body b trigs t rest (S k) d3) as [[[d4 l4] r4] k4] eqn:E4.
+      destruct (fire_row db run_body b (d_trigs d0) t After EvInsert None (Some r0) (push_row d1 t r0)) as [[d3 l3] r3] eqn:E3.
+      assert (Hi2 : ids (push_row d1 t r0) = ids d0) by (unfold push_row; rewrite ids_upd; [congruence|reflexivity]).
+      pose proof (ids_fire_row run_body Hids _ _ _ _ _ _ _ _ _ _ _ E3) as Hi3.
+      apply fire_row_frame in E3; [|exact Hi2]. destruct r3; [discriminate|].
+      destruct (insert_slow run_body b (d_trigs d0) t rest (S k) d3) as [[[d4 l4] r4] k4] eqn:E4.
       inversion H; subst.
       assert (H3 : get_table d3 t = Some (table_insert tb r0)).
       { rewrite E3. unfold push_row. apply (get_table_upd d1 t (fun x => table_insert x r0) tb); [reflexivity|congruence]. }
-      destruct (IH _ _ _ _ _ _ E4 H3) as (tb' & Hg & Hr & Hs).
+      destruct (IH _ _ _ _ _ _ (eq_trans Hi3 Hi2) E4 H3) as (tb' & Hg & Hr & Hs).
       exists tb'. split; [exact Hg|]. split; [|rewrite Hs; reflexivity].
       rewrite Hr. unfold table_insert. cbn [tb_rows]. rewrite <- app_assoc. reflexivity.
   Qed.
 
-  Theorem insert_rows_all_applied : forall b ctx d tb rows d' log n vrows,
-    do_insert_rows run_body b ctx d t tb rows = (d', log, Ok n) ->
-    get_table d t = Some tb -> validate_rows d tb ctx rows 0 [] = inr vrows ->
+  Theorem insert_rows_all_applied : forall b ctx tb rows d' log n vrows,
+    do_insert_rows run_body b ctx d0 t tb rows = (d', log, Ok n) ->
+    get_table d0 t = Some tb -> validate_rows d0 tb ctx rows 0 [] = inr vrows ->
     exists tb', get_table d' t = Some tb' /\ tb_rows tb' = tb_rows tb ++ vrows /\ n = length vrows.
   Proof.
-    intros b ctx d tb rows d' log n vrows H Ht Hv. unfold do_insert_rows in H.
+    intros b ctx tb rows d' log n vrows H Ht Hv. unfold do_insert_rows in H.
     destruct (negb (forallb _ rows)); [discriminate|]. rewrite Hv in H. unfold fireS in H.
-    destruct (if is_none ctx then fire_stmt db run_body b (d_trigs d) t Before EvInsert d else (d, [], None)) as [[d1 l1] r1] eqn:E1.
-    apply opt_stmt_frame in E1. destruct r1; [discriminate|].
+    destruct (if is_none ctx then fire_stmt db run_body b (d_trigs d0) t Before EvInsert d0 else (d0, [], None)) as [[d1 l1] r1] eqn:E1.
+    pose proof (ids_opt_stmt run_body Hids _ _ _ _ _ _ _ _ _ _ E1) as Hi1.
+    apply opt_stmt_frame in E1; [|reflexivity]. destruct r1; [discriminate|].
     assert (H1 : get_table d1 t = Some tb) by congruence.
-    destruct (negb (negb (is_none (hd_error (triggers_for_table (d_trigs d) t EvInsert)))) && (1 <? length vrows)).
-    - destruct (if is_none ctx then fire_stmt db run_body b (d_trigs d) t After EvInsert _ else _) as [[d3 l3] r3] eqn:E3.
-      apply opt_stmt_frame in E3. destruct r3; [discriminate|]. inversion H; subst.
+    destruct (negb (negb (is_none (hd_error (triggers_for_table (d_trigs d0) t EvInsert)))) && (1 <? length vrows)).
+    - destruct (if is_none ctx then fire_stmt db run_body b (d_trigs d0) t After EvInsert _ else _) as [[d3 l3] r3] eqn:E3.
+      apply opt_stmt_frame in E3; [|rewrite ids_pushes; exact Hi1]. destruct r3; [discriminate|]. inversion H; subst.
       destruct (rows_after_pushes vrows d1 t tb H1) as (tb' & Hg & Hr).
       exists tb'. rewrite E3. auto.
-    - destruct (insert_slow run_body b (d_trigs d) t vrows 0 d1) as [[[d2 l2] r2] cnt] eqn:E2.
+    - destruct (insert_slow run_body b (d_trigs d0) t vrows 0 d1) as [[[d2 l2] r2] cnt] eqn:E2.
       destruct r2 as [[s c]|]; [discriminate|].
-      destruct (if is_none ctx then fire_stmt db run_body b (d_trigs d) t After EvInsert d2 else (d2, [], None)) as [[d3 l3] r3] eqn:E3.
-      apply opt_stmt_frame in E3. destruct r3; [discriminate|]. inversion H; subst.
-      destruct (insert_slow_rows _ _ _ _ _ _ _ _ _ E2 H1) as (tb' & Hg & Hr & _).
+      pose proof (ids_insert_slow run_body Hids _ _ _ _ _ _ _ _ _ _ E2) as Hi2.
+      destruct (if is_none ctx then fire_stmt db run_body b (d_trigs d0) t After EvInsert d2 else (d2, [], None)) as [[d3 l3] r3] eqn:E3.
+      apply opt_stmt_frame in E3; [|congruence]. destruct r3; [discriminate|]. inversion H; subst.
+      destruct (insert_slow_rows _ _ _ _ _ _ _ _ Hi1 E2 H1) as (tb' & Hg & Hr & _).
       exists tb'. rewrite E3. repeat split; auto.
       apply insert_slow_ok_cnt in E2. cbn in E2. exact E2.
   Qed.
 
   (** *** UPDATE: every planned row holds its NEW image afterwards, was its OLD image before, nothing else moved *)
-  Theorem update_all_applied : forall b ctx d asg w d' log n tb,
-    do_update run_body b ctx d t asg w = (d', log, Ok n) ->
-    wf d -> get_table d t = Some tb -> references t tb = [] ->
-    (forall tr o nn d0 d1 r, run_body tr o nn d0 = (d1, r) -> wf d0 -> wf d1) ->
+  Theorem update_all_applied : forall b ctx asg w d' log n tb,
+    do_update run_body b ctx d0 t asg w = (d', log, Ok n) ->
+    wf d0 -> get_table d0 t = Some tb -> references t tb = [] ->
     exists d1 ups tb',
       update_plan ctx d1 tb asg w = inr ups /\ get_table d1 t = Some tb
       /\ n = length ups
@@ -649,45 +671,40 @@ Section Frame.
       /\ (forall fi, In fi log -> t_gran (f_trig fi) = GRow ->
                      exists u, In u ups /\ f_old fi = Some (snd (fst u)) /\ f_new fi = Some (snd u)).
   Proof.
-    intros b ctx d asg w d' log n tb H Hwf Ht Hself Hwfb. unfold do_update in H. unfold fireS, fireRs in H.
-    destruct (if is_none ctx then fire_stmt db run_body b (d_trigs d) t Before (EvUpdate None) d else (d, [], None)) as [[d1 l1] r1] eqn:E1.
-    assert (Hwf1 : wf d1).
-    { destruct (is_none ctx); [|inversion E1; subst; exact Hwf]. unfold fire_stmt in E1. destruct b; [|inversion E1; subst; exact Hwf].
-      clear - E1 Hwf Hwfb. revert E1 Hwf. generalize (stmt_triggers (d_trigs d) t Before (EvUpdate None)). intro trs. revert d d1 l1 r1.
-      induction trs as [|tr rest IH]; intros d d1 l1 r1 E Hwf; cbn [fire_list] in E; [inversion E; subst; exact Hwf|].
-      destruct (execute_trigger db run_body tr None None d) as [[dd ll] rr] eqn:Ee.
-      assert (Hd : wf dd).
-      { unfold execute_trigger in Ee. destruct (t_when tr) as [c|].
-        - destruct (eval_when c None None) as [[|]|]; try (inversion Ee; subst; exact Hwf).
-          destruct (run_body tr None None d) as [d0 r0] eqn:Er. inversion Ee; subst. eapply Hwfb; eauto.
-        - destruct (run_body tr None None d) as [d0 r0] eqn:Er. inversion Ee; subst. eapply Hwfb; eauto. }
-      destruct rr; [inversion E; subst; exact Hd|].
-      destruct (fire_list db run_body rest None None dd) as [[d2 l2] r2] eqn:E2. inversion E; subst. eapply IH; eauto. }
+    intros b ctx asg w d' log n tb H Hwf Ht Hself. unfold do_update in H. unfold fireS, fireRs in H.
+    destruct (if is_none ctx then fire_stmt db run_body b (d_trigs d0) t Before (EvUpdate None) d0 else (d0, [], None)) as [[d1 l1] r1] eqn:E1.
+    pose proof (ids_opt_stmt run_body Hids _ _ _ _ _ _ _ _ _ _ E1) as Hi1.
+    assert (Hwf1 : wf d1) by (apply (wf_ids d0); assumption).
     pose proof (opt_stmt_gran run_body _ _ _ _ _ _ _ _ _ _ E1) as G1.
-    apply opt_stmt_frame in E1. destruct r1; [discriminate|].
+    apply opt_stmt_frame in E1; [|reflexivity]. destruct r1; [discriminate|].
     assert (H1 : get_table d1 t = Some tb) by congruence. rewrite H1 in H.
     destruct (update_plan ctx d1 tb asg w) as [k|ups] eqn:Ep; [discriminate|].
     destruct (match s_pk (tb_schema tb) with
               | Some c0 => if match s_pk (tb_schema tb) with Some c1 => existsb (fun a => Nat.eqb (fst a) c1) asg | None => false end
                            then cascade_updates t c0 ups 0 d1 0 else (d1, None, 0)
               | None => (d1, None, 0) end) as [[d2 r2] m2] eqn:E2.
-    assert (H2 : get_table d2 t = Some tb).
-    { destruct (s_pk (tb_schema tb)); [|inversion E2; subst; exact H1].
-      destruct (existsb _ asg); [|inversion E2; subst; exact H1].
-      rewrite (cascade_updates_frame _ _ _ _ _ _ _ _ _ _ E2 Hwf1 H1 Hself). exact H1. }
+    assert (H2 : get_table d2 t = Some tb /\ ids d2 = ids d0).
+    { destruct (s_pk (tb_schema tb)); [|inversion E2; subst; auto].
+      destruct (existsb _ asg); [|inversion E2; subst; auto].
+      split; [rewrite (cascade_updates_frame _ _ _ _ _ _ _ _ _ _ E2 Hwf1 H1 Hself); exact H1|].
+      apply ids_cascade_updates in E2. congruence. }
+    destruct H2 as [H2 Hi2].
     destruct r2; [discriminate|].
-    destruct (fire_rows db run_body b (d_trigs d) t Before (EvUpdate None) (images ups) 0 d2) as [[d3 l3] r3] eqn:E3.
+    destruct (fire_rows db run_body b (d_trigs d0) t Before (EvUpdate None) (images ups) 0 d2) as [[d3 l3] r3] eqn:E3.
     pose proof (fire_rows_legit run_body _ _ _ _ _ _ _ _ _ _ _ E3 (or_introl eq_refl)) as L3.
-    apply fire_rows_frame in E3. destruct r3 as [[k c]|]; [discriminate|].
+    pose proof (ids_fire_rows run_body Hids _ _ _ _ _ _ _ _ _ _ _ E3) as Hi3.
+    apply fire_rows_frame in E3; [|exact Hi2]. destruct r3 as [[k c]|]; [discriminate|].
     destruct (apply_updates t ups 0 d3) as [[d4 r4] m4] eqn:E4.
     destruct r4; [discriminate|].
+    pose proof (ids_apply_updates _ _ _ _ _ _ _ E4) as Hi4.
     destruct (apply_updates_rows _ _ _ _ _ _ _ E4 (eq_trans E3 H2)) as (tb4 & Hg4 & Hr4 & Hs4).
-    destruct (fire_rows db run_body b (d_trigs d) t After (EvUpdate None) (images ups) 0 d4) as [[d5 l5] r5] eqn:E5.
+    destruct (fire_rows db run_body b (d_trigs d0) t After (EvUpdate None) (images ups) 0 d4) as [[d5 l5] r5] eqn:E5.
     pose proof (fire_rows_legit run_body _ _ _ _ _ _ _ _ _ _ _ E5 (or_intror eq_refl)) as L5.
-    apply fire_rows_frame in E5. destruct r5 as [[k c]|]; [discriminate|].
-    destruct (if is_none ctx then fire_stmt db run_body b (d_trigs d) t After (EvUpdate None) d5 else (d5, [], None)) as [[d6 l6] r6] eqn:E6.
+    pose proof (ids_fire_rows run_body Hids _ _ _ _ _ _ _ _ _ _ _ E5) as Hi5.
+    apply fire_rows_frame in E5; [|congruence]. destruct r5 as [[k c]|]; [discriminate|].
+    destruct (if is_none ctx then fire_stmt db run_body b (d_trigs d0) t After (EvUpdate None) d5 else (d5, [], None)) as [[d6 l6] r6] eqn:E6.
     pose proof (opt_stmt_gran run_body _ _ _ _ _ _ _ _ _ _ E6) as G6.
-    apply opt_stmt_frame in E6. destruct r6; [discriminate|].
+    apply opt_stmt_frame in E6; [|congruence]. destruct r6; [discriminate|].
     inversion H; subst.
     destruct (update_plan_shape _ _ _ _ _ _ Ep) as [Hsorted Hold].
     assert (Hlen : forall u, In u ups -> fst (fst u) < length (tb_rows tb)).
@@ -710,47 +727,49 @@ Section Frame.
   Qed.
 
   (** *** DELETE: exactly the selected rows are gone *)
-  Theorem delete_all_applied : forall b ctx d w d' log n tb,
-    do_delete run_body b ctx d t w = (d', log, Ok n) ->
-    wf d -> get_table d t = Some tb -> references t tb = [] ->
-    (forall tr o nn d0 d1 r, run_body tr o nn d0 = (d1, r) -> ids d1 = ids d0) ->
+  Theorem delete_all_applied : forall b ctx w d' log n tb,
+    do_delete run_body b ctx d0 t w = (d', log, Ok n) ->
+    wf d0 -> get_table d0 t = Some tb -> references t tb = [] ->
     exists tb', get_table d' t = Some tb'
       /\ tb_rows tb' = map snd (filter (fun ir => negb (selected ctx w ir)) (indexed 0 (tb_rows tb)))
       /\ n = length (filter (selected ctx w) (indexed 0 (tb_rows tb))).
   Proof.
-    intros b ctx d w d' log n tb H Hwf Ht Hself Hidb. unfold do_delete in H. rewrite Ht in H.
-    destruct (is_none w && can_use_truncate d t) eqn:Etr.
+    intros b ctx w d' log n tb H Hwf Ht Hself. unfold do_delete in H. rewrite Ht in H.
+    destruct (is_none w && can_use_truncate d0 t) eqn:Etr.
     - inversion H; subst. apply andb_prop in Etr. destruct Etr as [Hw _]. destruct w; [discriminate|].
       exists (mkTable (tb_id tb) (tb_schema tb) [] app0). split.
-      + unfold clear_table. apply (get_table_upd d t (fun x => mkTable (tb_id x) (tb_schema x) [] app0) tb); [reflexivity|exact Ht].
+      + unfold clear_table. apply (get_table_upd d0 t (fun x => mkTable (tb_id x) (tb_schema x) [] app0) tb); [reflexivity|exact Ht].
       + cbn [tb_rows]. unfold selected. split.
         * induction (indexed 0 (tb_rows tb)); cbn; auto.
         * rewrite <- (indexed_length (tb_rows tb) 0). induction (indexed 0 (tb_rows tb)); cbn; auto.
-    - destruct (select_rows ctx w (indexed 0 (tb_rows tb))) as [cands|] eqn:Esel; [|discriminate].
-      apply select_rows_filter in Esel. subst cands.
-      unfold fireS, fireRs in H.
-      destruct (if is_none ctx then fire_stmt db run_body b (d_trigs d) t Before EvDelete d else (d, [], None)) as [[d1 l1] r1] eqn:E1.
-      pose proof (ids_opt_stmt run_body Hidb _ _ _ _ _ _ _ _ _ _ E1) as Hi1. apply opt_stmt_frame in E1.
+    - unfold collect_rows in H. unfold fireS, fireRs in H.
+      destruct (if is_none ctx then fire_stmt db run_body b (d_trigs d0) t Before EvDelete d0 else (d0, [], None)) as [[d1 l1] r1] eqn:E1.
+      pose proof (ids_opt_stmt run_body Hids _ _ _ _ _ _ _ _ _ _ E1) as Hi1. apply opt_stmt_frame in E1; [|reflexivity].
       destruct r1; [discriminate|].
-      match type of H with context [fire_rows db run_body b (d_trigs d) t Before EvDelete ?im 0 d1] =>
-        destruct (fire_rows db run_body b (d_trigs d) t Before EvDelete im 0 d1) as [[d2 l2] r2] eqn:E2 end.
-      pose proof (ids_fire_rows run_body Hidb _ _ _ _ _ _ _ _ _ _ _ E2) as Hi2. apply fire_rows_frame in E2.
+      match type of H with context [fire_rows db run_body b (d_trigs d0) t Before EvDelete ?im 0 d1] =>
+        destruct (fire_rows db run_body b (d_trigs d0) t Before EvDelete im 0 d1) as [[d2 l2] r2] eqn:E2 end.
+      pose proof (ids_fire_rows run_body Hids _ _ _ _ _ _ _ _ _ _ _ E2) as Hi2. apply fire_rows_frame in E2; [|exact Hi1].
       destruct r2 as [[k c]|]; [discriminate|].
       assert (H2 : get_table d2 t = Some tb) by congruence.
-      assert (Hwf2 : wf d2) by (apply (wf_ids d); [congruence|exact Hwf]).
+      assert (Hwf2 : wf d2) by (apply (wf_ids d0); [congruence|exact Hwf]).
       destruct (match s_pk (tb_schema tb) with
                 | Some c0 => cascade_deletes t c0 (filter (selected ctx w) (indexed 0 (tb_rows tb))) 0 d2 0
                 | None => (d2, None, 0) end) as [[d3 r3] m3] eqn:E3.
-      assert (H3 : get_table d3 t = Some tb).
-      { destruct (s_pk (tb_schema tb)); [|inversion E3; subst; exact H2].
-        rewrite (cascade_deletes_frame _ _ _ _ _ _ _ _ _ _ E3 Hwf2 H2 Hself). exact H2. }
+      assert (H3 : get_table d3 t = Some tb /\ ids d3 = ids d0).
+      { destruct (s_pk (tb_schema tb)); [|inversion E3; subst; split; [exact H2|congruence]].
+        split; [rewrite (cascade_deletes_frame _ _ _ _ _ _ _ _ _ _ E3 Hwf2 H2 Hself); exact H2|].
+        apply ids_cascade_deletes in E3. congruence. }
+      destruct H3 as [H3 Hi3].
       destruct r3; [discriminate|]. rewrite H3 in H.
-      match type of H with context [fire_rows db run_body b (d_trigs d) t After EvDelete ?im 0 ?dd] =>
-        destruct (fire_rows db run_body b (d_trigs d) t After EvDelete im 0 dd) as [[d5 l5] r5] eqn:E5 end.
-      apply fire_rows_frame in E5. destruct r5 as [[k c]|]; [discriminate|].
-      match type of H with context [if is_none ctx then fire_stmt db run_body b (d_trigs d) t After EvDelete ?dd else _] =>
-        destruct (if is_none ctx then fire_stmt db run_body b (d_trigs d) t After EvDelete dd else (dd, [], None)) as [[d6 l6] r6] eqn:E6 end.
-      apply opt_stmt_frame in E6. destruct r6; [discriminate|]. inversion H; subst.
+      match type of H with context [fire_rows db run_body b (d_trigs d0) t After EvDelete ?im 0 ?dd] =>
+        destruct (fire_rows db run_body b (d_trigs d0) t After EvDelete im 0 dd) as [[d5 l5] r5] eqn:E5 end.
+      pose proof (ids_fire_rows run_body Hids _ _ _ _ _ _ _ _ _ _ _ E5) as Hi5.
+      apply fire_rows_frame in E5; [|unfold set_rows; rewrite ids_upd; [exact Hi3|reflexivity]].
+      destruct r5 as [[k c]|]; [discriminate|].
+      match type of H with context [if is_none ctx then fire_stmt db run_body b (d_trigs d0) t After EvDelete ?dd else _] =>
+        destruct (if is_none ctx then fire_stmt db run_body b (d_trigs d0) t After EvDelete dd else (dd, [], None)) as [[d6 l6] r6] eqn:E6 end.
+      apply opt_stmt_frame in E6; [|rewrite Hi5; unfold set_rows; rewrite ids_upd; [exact Hi3|reflexivity]].
+      destruct r6; [discriminate|]. inversion H; subst.
       rewrite delete_indices_filter in *.
       eexists. split.
       + rewrite E6, E5. unfold set_rows.
@@ -761,21 +780,23 @@ Section Frame.
   Qed.
 End Frame.
 
-(** ** The recursive instance.  [frame_on f t]: no trigger body executed at depth [f] touches table [t]. *)
-Definition frame_on (f : nat) (t : nat) : Prop :=
-  forall tr o n d0 d1 r, body_runner f tr o n d0 = (d1, r) -> get_table d1 t = get_table d0 t.
+(** ** The recursive instance.  [frame_on f d t]: run at depth [f] on any database that has [d]'s tables and
+    triggers, the body of a trigger of [d] does not touch table [t]. *)
+Definition frame_on (f : nat) (d : db) (t : nat) : Prop :=
+  forall tr o n d1 d2 r,
+    In tr (d_trigs d) -> ids d1 = ids d -> body_runner f tr o n d1 = (d2, r) -> get_table d2 t = get_table d1 t.
 
 Theorem exec_insert_all_applied : forall f ctx d t tb rows d' log n vrows,
-  exec (S f) ctx d (SInsert t true rows) = (d', log, Ok n) -> frame_on f t ->
+  exec (S f) ctx d (SInsert t true rows) = (d', log, Ok n) -> frame_on f d t ->
   get_table d t = Some tb -> validate_rows d tb ctx rows 0 [] = inr vrows ->
   exists tb', get_table d' t = Some tb' /\ tb_rows tb' = tb_rows tb ++ vrows /\ n = length vrows.
 Proof.
   intros f ctx d t tb rows d' log n vrows H Hfr Ht Hv. cbn [exec step_dml] in H. unfold do_insert in H. rewrite Ht in H.
-  eapply insert_rows_all_applied; eauto.
+  eapply (insert_rows_all_applied (body_runner f) t d); eauto. intros; eapply ids_body_runner; eauto.
 Qed.
 
 Theorem exec_update_all_applied : forall f ctx d t asg w d' log n tb,
-  exec (S f) ctx d (SUpdate t asg w) = (d', log, Ok n) -> frame_on f t ->
+  exec (S f) ctx d (SUpdate t asg w) = (d', log, Ok n) -> frame_on f d t ->
   wf d -> get_table d t = Some tb -> references t tb = [] ->
   exists d1 ups tb',
     update_plan ctx d1 tb asg w = inr ups /\ get_table d1 t = Some tb
@@ -789,40 +810,47 @@ Theorem exec_update_all_applied : forall f ctx d t asg w d' log n tb,
                    exists u, In u ups /\ f_old fi = Some (snd (fst u)) /\ f_new fi = Some (snd u)).
 Proof.
   intros f ctx d t asg w d' log n tb H Hfr Hwf Ht Hself. cbn [exec step_dml] in H.
-  eapply update_all_applied; eauto.
-  intros tr o nn d0 d1 r Hr Hw0. apply (wf_ids d0); [|exact Hw0]. eapply ids_body_runner; eauto.
+  eapply (update_all_applied (body_runner f) t d); eauto. intros; eapply ids_body_runner; eauto.
 Qed.
 
 Theorem exec_delete_all_applied : forall f ctx d t w d' log n tb,
-  exec (S f) ctx d (SDelete t w) = (d', log, Ok n) -> frame_on f t ->
+  exec (S f) ctx d (SDelete t w) = (d', log, Ok n) -> frame_on f d t ->
   wf d -> get_table d t = Some tb -> references t tb = [] ->
   exists tb', get_table d' t = Some tb'
     /\ tb_rows tb' = map snd (filter (fun ir => negb (selected ctx w ir)) (indexed 0 (tb_rows tb)))
     /\ n = length (filter (selected ctx w) (indexed 0 (tb_rows tb))).
 Proof.
   intros f ctx d t w d' log n tb H Hfr Hwf Ht Hself. cbn [exec step_dml] in H.
-  eapply delete_all_applied; eauto. intros; eapply ids_body_runner; eauto.
+  eapply (delete_all_applied (body_runner f) t d); eauto. intros; eapply ids_body_runner; eauto.
 Qed.
 
-(** the frame condition is met, for instance, by a database without triggers *)
-Lemma frame_on_no_triggers_example : forall f t tr o n d0, t_body tr = [] -> get_table (fst (body_runner f tr o n d0)) t = get_table d0 t.
-Proof. intros f t tr o n d0 Hb. unfold body_runner. rewrite Hb. reflexivity. Qed.
+(** the frame condition is satisfiable by databases whose triggers do real work: every trigger body is one INSERT
+    into a table [a <> t] on which no INSERT trigger is defined (the audit-table pattern of the harness) *)
+Definition audit_bodies (d : db) (a : nat) : Prop :=
+  triggers_for_table (d_trigs d) a EvInsert = []
+  /\ forall tr, In tr (d_trigs d) -> exists ok rows, t_body tr = [SInsert a ok rows].
 
-(** C34: what a row trigger of a successful UPDATE saw as OLD is the row stored at that position before the statement,
-    and what it saw as NEW is the row stored there afterwards *)
-Theorem exec_update_images_pre_post : forall f ctx d t asg w d' log n tb,
-  exec (S f) ctx d (SUpdate t asg w) = (d', log, Ok n) -> frame_on f t ->
-  wf d -> get_table d t = Some tb -> references t tb = [] ->
-  exists tb', get_table d' t = Some tb' /\
-    forall fi, In fi log -> t_gran (f_trig fi) = GRow ->
-      exists i old new, f_old fi = Some old /\ f_new fi = Some new
-                        /\ nth_error (tb_rows tb) i = Some old /\ nth_error (tb_rows tb') i = Some new.
+Lemma get_table_pushes_other : forall rows d a t, a <> t ->
+  get_table (fold_left (fun d1 r => push_row d1 a r) rows d) t = get_table d t.
 Proof.
-  intros f ctx d t asg w d' log n tb H Hfr Hwf Ht Hself.
-  destruct (exec_update_all_applied _ _ _ _ _ _ _ _ _ _ H Hfr Hwf Ht Hself)
-    as (d1 & ups & tb' & _ & _ & _ & Hg & _ & _ & Him & _ & Hfi).
-  exists tb'. split; [exact Hg|]. intros fi Hin Hgr. destruct (Hfi fi Hin Hgr) as (u & Hu & Ho & Hn).
-  destruct (Him u Hu) as [Hpre Hpost]. exists (fst (fst u)), (snd (fst u)), (snd u). auto.
+  induction rows as [|r rest IH]; intros d a t Hne; cbn [fold_left]; [reflexivity|].
+  rewrite IH by exact Hne. unfold push_row. apply get_table_upd_other; [exact Hne|reflexivity].
+Qed.
+
+Theorem audit_bodies_frame : forall f d a t, audit_bodies d a -> a <> t -> frame_on (S f) d t.
+Proof.
+  intros f d a t [Hno Hb] Hne tr o n d1 d2 r Hin Hi Hr.
+  destruct (Hb tr Hin) as (ok & rows & Hbody). unfold body_runner in Hr. rewrite Hbody in Hr. cbn [run_stmts] in Hr.
+  destruct (exec (S f) (Some (o, n)) d1 (SInsert a ok rows)) as [[d3 l] oo] eqn:E.
+  assert (Hd : get_table d3 t = get_table d1 t).
+  { destruct (get_table d1 a) as [tba|] eqn:Ea.
+    - assert (Hno1 : triggers_for_table (d_trigs d1) a EvInsert = []) by (rewrite (ids_trigs _ _ Hi); exact Hno).
+      destruct (exec_insert_no_triggers_atomic _ _ _ _ _ _ _ _ _ _ E Ea Hno1) as [_ Ho].
+      destruct oo as [k|s c m].
+      + destruct Ho as (vrows & _ & _ & Hd3). subst d3. apply get_table_pushes_other. exact Hne.
+      + destruct Ho as [Hd3 _]. subst d3. reflexivity.
+    - cbn [exec step_dml] in E. unfold do_insert in E. rewrite Ea in E. inversion E; reflexivity. }
+  destruct oo; inversion Hr; subst; exact Hd.
 Qed.
 
 (** ** INSERT ... SELECT through the normal path: the same specification list, over the rows in SELECT order *)
@@ -853,7 +881,7 @@ Proof. intros ctx trigs t tm ev fi H. unfold spec_stmt in H. destruct (is_none c
 
 (** a row trigger of a successful INSERT saw no OLD row and as NEW one of the rows the statement appended *)
 Theorem exec_insert_images : forall f ctx d t tb rows d' log n vrows,
-  exec (S f) ctx d (SInsert t true rows) = (d', log, Ok n) -> frame_on f t ->
+  exec (S f) ctx d (SInsert t true rows) = (d', log, Ok n) -> frame_on f d t ->
   get_table d t = Some tb -> validate_rows d tb ctx rows 0 [] = inr vrows ->
   exists tb', get_table d' t = Some tb' /\ tb_rows tb' = tb_rows tb ++ vrows /\
     forall fi, In fi log -> t_gran (f_trig fi) = GRow ->
@@ -873,7 +901,7 @@ Qed.
 (** a row trigger of a successful DELETE saw no NEW row and as OLD a row that was stored and selected; afterwards
     exactly the unselected rows remain *)
 Theorem exec_delete_images : forall f ctx d t w d' log n tb,
-  exec (S f) ctx d (SDelete t w) = (d', log, Ok n) -> frame_on f t ->
+  exec (S f) ctx d (SDelete t w) = (d', log, Ok n) -> frame_on f d t ->
   wf d -> get_table d t = Some tb -> references t tb = [] ->
   exists tb', get_table d' t = Some tb'
     /\ tb_rows tb' = map snd (filter (fun ir => negb (selected ctx w ir)) (indexed 0 (tb_rows tb)))
@@ -887,11 +915,27 @@ Proof.
   assert (Himg : forall tm, In fi (flat_map (spec_row (d_trigs d) t tm EvDelete) (delete_images ctx tb w)) ->
             f_new fi = None /\ exists i r, f_old fi = Some r /\ nth_error (tb_rows tb) i = Some r /\ selected ctx w (i, r) = true).
   { intros tm Hf. apply in_flat_map in Hf. destruct Hf as (img & Him & Hf). apply spec_row_in in Hf. destruct Hf as [Ho Hn].
-    unfold delete_images in Him. destruct (select_rows ctx w (indexed 0 (tb_rows tb))) as [cands|] eqn:Es; [|contradiction].
-    apply select_rows_filter in Es. subst cands. apply in_map_iff in Him. destruct Him as ([i r] & Heq & Hir). subst img.
+    unfold delete_images, collect_rows in Him. apply in_map_iff in Him. destruct Him as ([i r] & Heq & Hir). subst img.
     cbn [fst snd] in *. apply filter_In in Hir. destruct Hir as [Hir Hsel]. apply indexed_nth in Hir. rewrite Nat.sub_0_r in Hir.
     split; [exact Hn|]. exists i, r. tauto. }
   apply in_app_or in Hin. destruct Hin as [Hin|Hin]; [apply spec_stmt_gran in Hin; congruence|].
   apply in_app_or in Hin. destruct Hin as [Hin|Hin]; [eapply Himg; eauto|].
   apply in_app_or in Hin. destruct Hin as [Hin|Hin]; [eapply Himg; eauto|apply spec_stmt_gran in Hin; congruence].
+Qed.
+
+(** C34: what a row trigger of a successful UPDATE saw as OLD is the row stored at that position before the statement,
+    and what it saw as NEW is the row stored there afterwards *)
+Theorem exec_update_images_pre_post : forall f ctx d t asg w d' log n tb,
+  exec (S f) ctx d (SUpdate t asg w) = (d', log, Ok n) -> frame_on f d t ->
+  wf d -> get_table d t = Some tb -> references t tb = [] ->
+  exists tb', get_table d' t = Some tb' /\
+    forall fi, In fi log -> t_gran (f_trig fi) = GRow ->
+      exists i old new, f_old fi = Some old /\ f_new fi = Some new
+                        /\ nth_error (tb_rows tb) i = Some old /\ nth_error (tb_rows tb') i = Some new.
+Proof.
+  intros f ctx d t asg w d' log n tb H Hfr Hwf Ht Hself.
+  destruct (exec_update_all_applied _ _ _ _ _ _ _ _ _ _ H Hfr Hwf Ht Hself)
+    as (d1 & ups & tb' & _ & _ & _ & Hg & _ & _ & Him & _ & Hfi).
+  exists tb'. split; [exact Hg|]. intros fi Hin Hgr. destruct (Hfi fi Hin Hgr) as (u & Hu & Ho & Hn).
+  destruct (Him u Hu) as [Hpre Hpost]. exists (fst (fst u)), (snd (fst u)), (snd u). auto.
 Qed.
